@@ -42,6 +42,8 @@ func variants(b int) int {
 		return 3
 	case "html-template-lexer":
 		return 6
+	case "two-lexers":
+		return 12
 	}
 	return 2
 }
